@@ -22,7 +22,7 @@ PID = "C18"
 SHARDS = {"quick": 8, "thorough": 16}
 SHARD_TIMEOUT = {"quick": 600, "thorough": 1700}
 N_SAMPLED = {"quick": 400, "thorough": 12000}
-N_DEPTH = {"quick": 1200, "thorough": 30000}
+N_DEPTH = {"quick": 1200, "thorough": 24000}
 N_ENV = {"quick": 16, "thorough": 108}
 
 
